@@ -133,6 +133,12 @@ pub struct Cfg {
     pub hook_max: u32,
     /// children drop the waker they stored when they complete / are dropped
     pub release_wakers: bool,
+    /// pushes of `specs[i]` with i at or above this are deviations (child kinds added by the universal pass)
+    pub costly_specs_from: usize,
+    /// Starve epilogue: a source that ends at once is pushed before every poll (take an item, add a stream)
+    pub starve_push: bool,
+    /// for_each_concurrent: `ItemAlt` items make the closure panic
+    pub up_closure_panic: bool,
 }
 
 impl Cfg {
@@ -159,6 +165,9 @@ impl Cfg {
             up_modes: [Mode::Gate, Mode::Ready, Mode::Ready],
             hook_max: u32::MAX,
             release_wakers: false,
+            costly_specs_from: usize::MAX,
+            starve_push: false,
+            up_closure_panic: false,
             pre_polls: 0,
             pool_max: 2,
             focus_strict: false,
@@ -169,7 +178,7 @@ impl Cfg {
     }
     pub fn limit(&self) -> usize {
         match self.kind {
-            Kind::Bu(n) | Kind::Bo(n) | Kind::Tbu(n) | Kind::Tbo(n) | Kind::Fec(n) => n,
+            Kind::Bu(n) | Kind::Bo(n) | Kind::Tbu(n) | Kind::Tbo(n) | Kind::Fec(n) | Kind::BoZ(n) => n,
             _ => usize::MAX,
         }
     }
@@ -319,9 +328,10 @@ impl<'a> Run<'a> {
                             if cfg.specs[i].mode == Mode::Relay && self.relay_target(w).is_none() {
                                 continue;
                             }
-                            m.push((Op::Push(i, PushHow::Back), i > 0 && costly(ops::PUSH)));
+                            let dear = i > 0 && costly(ops::PUSH) || i >= cfg.costly_specs_from;
+                            m.push((Op::Push(i, PushHow::Back), dear));
                             if cfg.ops & ops::PUSH_FRONT != 0 {
-                                m.push((Op::Push(i, PushHow::Front), i > 0 && costly(ops::PUSH)));
+                                m.push((Op::Push(i, PushHow::Front), dear));
                             }
                         }
                     } else if !cfg.specs.is_empty() {
@@ -1091,7 +1101,7 @@ impl<'a> Run<'a> {
             }
         }
         // C16: backpressure of the ordered adapters
-        if let Kind::Bo(n) | Kind::Tbo(n) = cfg.kind {
+        if let Kind::Bo(n) | Kind::Tbo(n) | Kind::BoZ(n) = cfg.kind {
             w(|w| {
                 let inflight = self.inflight(w);
                 if n >= 1 && inflight > n {
@@ -1268,7 +1278,7 @@ impl<'a> Run<'a> {
                 if self.subj.is_none() {
                     return;
                 }
-                let bound = 4 * w(|w| w.held()) + 8 + 2;
+                let bound = 4 * w(|w| w.held()) + 8 + 2 + if cfg.starve_push { 16 } else { 0 };
                 for _ in 0..bound {
                     let waiting = w(|w| {
                         w.children.iter().any(|c| {
@@ -1279,6 +1289,10 @@ impl<'a> Run<'a> {
                         break;
                     }
                     self.epilogue_steps += 1;
+                    if cfg.starve_push && !cfg.specs.is_empty() {
+                        self.do_push(cfg.specs.len() - 1, PushHow::Back, false);
+                        self.post_op();
+                    }
                     self.do_poll(false);
                     self.post_op();
                 }
@@ -1641,8 +1655,9 @@ pub(crate) fn begin<'a>(cfg: &'a Cfg, prefix: &[u8], log_on: bool) -> Run<'a> {
         w.up.is_try = cfg.kind.is_try();
         w.up.modes = cfg.up_modes;
         w.release_wakers = cfg.release_wakers;
+        w.up.closure_panic_alt = cfg.up_closure_panic;
         w.up.limit = if cfg.kind.is_adapter() && !matches!(cfg.kind, Kind::Fec(_)) && cfg.limit() != usize::MAX { cfg.limit() } else { 0 };
-        w.up.ordered = matches!(cfg.kind, Kind::Bo(_) | Kind::Tbo(_));
+        w.up.ordered = matches!(cfg.kind, Kind::Bo(_) | Kind::Tbo(_) | Kind::BoZ(_));
         w.dormant = cfg.dormant;
     });
     Run {
@@ -1677,7 +1692,7 @@ impl<'a> Run<'a> {
         let pre: Vec<u32> = cfg.prefill.iter().map(|s| self.new_child(s)).collect();
         let by_ctor = matches!(
             cfg.kind,
-            Kind::FubIter(_) | Kind::FuIter(_) | Kind::FobIter(_) | Kind::FoIter(_) | Kind::Mb(_) | Kind::Mu(_) | Kind::MuIter(_) | Kind::Ja(_) | Kind::Tja(_) | Kind::JaP(_) | Kind::TjaP(_) | Kind::JaN(_) | Kind::TjaN(_) | Kind::JaZ(_)
+            Kind::FubIter(_) | Kind::FuIter(_) | Kind::FobIter(_) | Kind::FoIter(_) | Kind::Mb(_) | Kind::Mu(_) | Kind::MuIter(_) | Kind::MuU(_) | Kind::Ja(_) | Kind::Tja(_) | Kind::JaP(_) | Kind::TjaP(_) | Kind::JaN(_) | Kind::TjaN(_) | Kind::JaZ(_)
         );
         ITER_PANIC_AT.with(|c| c.set(cfg.iter_panic_at));
         ITER_PANICKED.with(|c| c.set(false));
@@ -1712,7 +1727,7 @@ impl<'a> Run<'a> {
                 self.model.push_back(id);
             }
         }
-        if !matches!(cfg.kind, Kind::Mu(_) | Kind::MuIter(_) | Kind::FuNew | Kind::FuCap(_) | Kind::FuIter(_) | Kind::FoNew | Kind::FoCap(_) | Kind::FoIter(_)) {
+        if !matches!(cfg.kind, Kind::Mu(_) | Kind::MuIter(_) | Kind::MuU(_) | Kind::FuNew | Kind::FuCap(_) | Kind::FuIter(_) | Kind::FoNew | Kind::FoCap(_) | Kind::FoIter(_)) {
             reset_crate_allocs();
         }
         true
